@@ -224,11 +224,47 @@ def aes_property_agreement(ctx, rule: str) -> None:
         ok = iadds[0] == want and iv_flag.is_const() and iv_flag.value() == 1
     ctx.check(bool(ok), rule, r, r.node, "reader iv size = flag bit 6 + low nibble of byte 1 (inverse of the writer)",
               f"iv size decoding ({ibase} + {iadds}) is not the inverse of the writer's byte0={b0}, byte1={b1}", construct="aes iv size bits")
-    # slices: salt = props[2:2+saltsize], iv = props[2+saltsize:2+saltsize+ivsize]
+    # slices: salt = props[2:2+saltsize], iv = props[2+saltsize:2+saltsize+ivsize], compared as linear forms over (saltsize, ivsize)
+    def lin(e, depth=4):
+        """e as {symbol: coeff, 1: const} or None (not a linear form over the two sizes; e.g. a negative index -ivsize is one, and is wrong
+        for ivsize == 0, but it does not equal the wanted form either)."""
+        if e is None:
+            return None
+        if isinstance(e, ast.Constant) and isinstance(e.value, int) and not isinstance(e.value, bool):
+            return {1: e.value}
+        if isinstance(e, ast.Name):
+            if e.id in ("saltsize", "ivsize"):
+                return {e.id: 1}
+            if depth > 0:
+                vals = [n.value for n in walk(r.node) if isinstance(n, ast.Assign) and isinstance(n.targets[0], ast.Name) and n.targets[0].id == e.id]
+                if len(vals) == 1:
+                    return lin(vals[0], depth - 1)
+            return None
+        if isinstance(e, ast.UnaryOp) and isinstance(e.op, ast.USub):
+            v = lin(e.operand, depth)
+            return None if v is None else {k: -c for k, c in v.items()}
+        if isinstance(e, ast.BinOp) and isinstance(e.op, (ast.Add, ast.Sub)):
+            a, b = lin(e.left, depth), lin(e.right, depth)
+            if a is None or b is None:
+                return None
+            out = dict(a)
+            for k, c in b.items():
+                out[k] = out.get(k, 0) + (c if isinstance(e.op, ast.Add) else -c)
+            return {k: c for k, c in out.items() if c != 0}
+        return None
+
     sl = {}
+    shown = {}
     for n in walk(r.node):
         if isinstance(n, ast.Assign) and isinstance(n.targets[0], ast.Name) and isinstance(n.value, ast.Subscript) and isinstance(n.value.slice, ast.Slice) \
                 and isinstance(n.value.value, ast.Name) and n.value.value.id == prop_param:
-            sl[n.targets[0].id] = (norm(n.value.slice.lower), norm(n.value.slice.upper))
-    ok = sl.get("salt") == ("2", "2 + saltsize") and sl.get("iv") == ("2 + saltsize", "2 + saltsize + ivsize")
-    ctx.check(ok, rule, r, r.node, "reader slices salt then iv after the two bytes", f"reader slices {sl} instead of salt=[2:2+saltsize], iv=[2+saltsize:2+saltsize+ivsize]", construct="aes salt/iv slices")
+            lo, up = n.value.slice.lower, n.value.slice.upper
+            sl[n.targets[0].id] = (lin(lo) if lo is not None else {}, lin(up) if up is not None else "END")
+            shown[n.targets[0].id] = (norm(lo) if lo is not None else "", norm(up) if up is not None else "")
+    want_salt = ({1: 2}, {1: 2, "saltsize": 1})
+    want_iv_lo = {1: 2, "saltsize": 1}
+    want_iv_up = ({1: 2, "saltsize": 1, "ivsize": 1}, "END")
+    ok = sl.get("salt") == want_salt and "iv" in sl and sl["iv"][0] == want_iv_lo and sl["iv"][1] in want_iv_up
+    ctx.check(ok, rule, r, r.node, "reader slices salt then iv after the two bytes",
+              f"reader slices {shown} instead of salt=[2:2+saltsize], iv=[2+saltsize:2+saltsize+ivsize] (a negative index such as [-ivsize:] takes the whole "
+              "blob when ivsize is 0: properties with a salt but no IV are refused)", construct="aes salt/iv slices")
